@@ -70,7 +70,7 @@ def RULE(tier):
             "forests of %d boxes: %s); plus every single failing precondition at the very first entry. Each history is one execution "
             "of the real Boxer.run generator on freshly built boxes. Per cycle the observed exacts/rexacts/renacts/enacts trace must "
             "equal the reference computed from active pile P and destination pile Q; per box and context the two acts run in "
-            "declaration order; a failed precondition leaves the trace empty and the active box unchanged; at the end every box of "
+            "declaration order; a failed precondition leaves the trace empty and the active box unchanged; histories of <= 1 cycle are also run a second time on the SAME Boxer after its end (same expectations); at the end every box of "
             "the active pile exits exactly once bottom-up. Histories are distinct by construction (prefix tree of cycles)."
             % (nb, MAXDEPTH, MAXCYCLES, nb, words(nb - 1), nb, words(nb)))
 
@@ -394,10 +394,29 @@ def compare(log, exp, site, stage, where, fail=(-1, -1)):
     return v
 
 
+AGAIN = -7      # marker cycle: run the history, end, then run the SAME Boxer and boxes through the same history once more
+
+
 def execute(par, first, hist, world=None):
     """one history on fresh real objects -> (violations, observation, transition kinds)"""
-    w = world if world is not None else World(par)
-    w.fresh(first)
+    if hist and hist[0][0] == AGAIN:
+        h = list(hist[1:])
+        w = world if world is not None else World(par)
+        v1, o1, _ = _execute(par, first, h, w, True)
+        if v1:
+            return [], tuple(o1), []       # already wrong the first time: the plain case reports that
+        w.boxer.hold[("", "boxer", w.boxer.name, "end")] = Bag(value=False)
+        v2, o2, _ = _execute(par, first, h, w, False)
+        return [(k + ":second-run", "%s [second run of the same Boxer after end]" % m) for k, m in v2], tuple(o1) + tuple(o2), []
+    return _execute(par, first, hist, world if world is not None else World(par), True)
+
+
+def _execute(par, first, hist, w, fresh):
+    if fresh:
+        w.fresh(first)
+    else:
+        w.log = []
+        w.fire, w.dest, w.fail = -1, None, (-1, -1)
     viols, obs, kinds = [], [], []
     gen = w.boxer.run(tock=1.0)
     tyme = 0.0
@@ -550,6 +569,20 @@ def run_job(job, tier, seed):
                 acc.r.add_violation(key, str(msg), job, hist, size)
         else:
             acc.bulk(1, 1)      # distinct by construction (prefix tree); its trace is not hashed
+        if len(hist) <= 1 and not (hist and hist[0][0] == INITFAIL):
+            # the same Boxer is run a second time after its end: what a run leaves in the boxes must not change the next run
+            h2 = [(AGAIN, 0, -1, -1)] + list(hist)
+            v2, o2, _ = execute(par, first, h2, world)
+            ncase += 1
+            if v2:
+                acc.case(h2, o2, (), sample=dict(forest=show(par), first="b%d" % first, history=h2))
+                for key, msg in v2:
+                    if key not in acc.r.violations:
+                        acc.r.add_violation(key, str(msg), job, h2, size + 1)
+                    else:
+                        acc.r.violations[key]["count"] += 1
+            else:
+                acc.bulk(1, 1)
         # reference state graph: (forest, active box) --cycle--> (forest, active box)
         active = first
         for cyc in hist:
